@@ -53,6 +53,12 @@ type Config struct {
 	MaxSteps   int64  `json:"max_steps"`           // abort (outcome "step-limit") after this many steps
 	EpochNs    int64  `json:"epoch_ns"`            // wall clock at sim time 0
 	MaxSimTime int64  `json:"max_sim_ns,omitempty"`
+	// HoldYieldPct > 0: after a task acquired a Mutex / RWMutex (write or read
+	// side) it yields with this probability while holding the lock — the
+	// preemption inside a critical section that TryLock-based and
+	// lock-ordering-dependent code is sensitive to. 0 (default): locks are
+	// scheduling points only before the acquisition, schedules are unchanged.
+	HoldYieldPct int `json:"hold_yield_pct,omitempty"`
 }
 
 // DefaultConfig returns the configuration used when a harness does not care.
@@ -696,6 +702,14 @@ func Yield() {
 		return
 	}
 	s.yield()
+}
+
+// holdYield is the optional scheduling point right after a lock acquisition.
+func (s *Sim) holdYield() {
+	if s.cfg.HoldYieldPct > 0 && !s.cur.killed && s.sched.Intn(100) < s.cfg.HoldYieldPct {
+		Count("probe.yield_holding_lock", 1)
+		s.yield()
+	}
 }
 
 func (s *Sim) yield() {
